@@ -348,6 +348,10 @@ class Exec:
             ast.LShift: '__lshift__', ast.RShift: '__rshift__'}
 
     def binop(self, op, a, b, st, node):
+        if isinstance(op, ast.Add) and ((isinstance(a, str) and isinstance(b, str)) or (isinstance(a, bytes) and isinstance(b, bytes))):
+            return a + b                       # concrete strings stay concrete (attribute names, messages)
+        if isinstance(op, ast.Mod) and isinstance(a, (str, OpaqueStr)):
+            return OpaqueStr()                 # message formatting: the text is irrelevant
         # sequence operations
         if isinstance(a, (Ref, SSeq, bytes, str, list, tuple)) and not isinstance(a, tuple) or \
                 (isinstance(a, tuple) and isinstance(b, tuple)):
@@ -568,7 +572,7 @@ class Exec:
             raise SymErr('no class attribute %s' % attr)
         if isinstance(base, (SSeq, bytes, str)):
             return SeqMethod(base, attr)
-        if isinstance(base, SInt) and hasattr(self.c, 'method_model'):
+        if isinstance(base, (SInt, SOpt)) and hasattr(self.c, 'method_model'):
             return SeqMethod(base, attr)          # an abstract (int-coded) value: methods are interpreted by the contract
         if isinstance(base, BuiltinVal):
             return BuiltinVal(base.name + '.' + attr)
@@ -1102,5 +1106,5 @@ class RaisedValue:
 BUILTINS = {'len', 'range', 'min', 'max', 'bytes', 'bytearray', 'list', 'tuple', 'enumerate', 'int', 'str',
             'format', 'isinstance', 'abs', 'bool', 'sorted', 'zip', 'open', 'print', 'ValueError',
             'TypeError', 'IndexError', 'AssertionError', 'Exception', 'KeyError', 'super', 'dict', 'set',
-            'any', 'all', 'sum', 'chr', 'ord', 'hasattr', 'getattr', 'iter', 'next', 'reversed', 'object', 'type',
+            'any', 'all', 'sum', 'chr', 'ord', 'hasattr', 'getattr', 'setattr', 'iter', 'next', 'reversed', 'object', 'type',
             'NotImplementedError', 'OSError', 'IOError'}
